@@ -200,7 +200,7 @@ def run(ctx: core.Ctx) -> core.Report:
                 "announcer stop (also twice) / connection loss at adversarially chosen instants incl. phase boundaries, "
                 "FindService (both channels) at any instant; queue_send wrapped; every step compared with the Lean model")
     helper_case(rep)
-    stateful.run_scenarios(ctx, rep, make, oracle, ctx.n(80, 1500), "c10")
+    stateful.run_scenarios(ctx, rep, make, oracle, ctx.n(200, 3000), "c10")
     return rep
 
 
